@@ -362,6 +362,49 @@ fn derive_copy_shape(def: &CopyDef, symbol_table: &mut BTreeMap<Rc<str>, Shape>)
     }
 }
 
+/// The shape a call of `fdef` evaluates to. A function that returns one of
+/// its untyped parameters has a hole named after that parameter in its return
+/// shape. The name means nothing to the caller, and narrowing against it
+/// would retype a caller's binding that happens to share it, so such holes
+/// leave the function as unconstrained shapes.
+fn returned_shape(fdef: &FuncShapeDef, pos: &Position) -> Shape {
+    fn close(shape: &Shape, fdef: &FuncShapeDef, pos: &Position) -> Shape {
+        match shape {
+            Shape::Hole(pi) if fdef.args.contains_key(&pi.val) => Shape::Narrowed(NarrowedShape {
+                pos: pos.clone(),
+                types: NarrowingShape::Any,
+            }),
+            Shape::List(NarrowedShape {
+                pos: lpos,
+                types: NarrowingShape::Narrowed(items),
+            }) => Shape::List(NarrowedShape {
+                pos: lpos.clone(),
+                types: NarrowingShape::Narrowed(
+                    items.iter().map(|s| close(s, fdef, pos)).collect(),
+                ),
+            }),
+            Shape::Narrowed(NarrowedShape {
+                pos: npos,
+                types: NarrowingShape::Narrowed(items),
+            }) => Shape::Narrowed(NarrowedShape {
+                pos: npos.clone(),
+                types: NarrowingShape::Narrowed(
+                    items.iter().map(|s| close(s, fdef, pos)).collect(),
+                ),
+            }),
+            Shape::Tuple(flds) => Shape::Tuple(PositionedItem::new(
+                flds.val
+                    .iter()
+                    .map(|(name, s)| (name.clone(), close(s, fdef, pos)))
+                    .collect(),
+                flds.pos.clone(),
+            )),
+            other => other.clone(),
+        }
+    }
+    close(fdef.ret.as_ref(), fdef, pos)
+}
+
 fn derive_call_shape(def: &CallDef, symbol_table: &mut BTreeMap<Rc<str>, Shape>) -> Shape {
     let func_shape = def.funcref.derive_shape(symbol_table);
     match &func_shape {
@@ -394,7 +437,7 @@ fn derive_call_shape(def: &CallDef, symbol_table: &mut BTreeMap<Rc<str>, Shape>)
                 }
             }
             // Return the function's return type
-            fdef.ret.as_ref().clone()
+            returned_shape(fdef, &def.pos)
         }
         Shape::Hole(_) => {
             // Unknown function, derive arg shapes but return Any
@@ -443,7 +486,7 @@ fn derive_call_shape(def: &CallDef, symbol_table: &mut BTreeMap<Rc<str>, Shape>)
                     let mut ret_shapes = Vec::new();
                     for fdef in func_types {
                         if fdef.args.len() == arg_shapes.len() {
-                            ret_shapes.push(fdef.ret.as_ref().clone());
+                            ret_shapes.push(returned_shape(fdef, &def.pos));
                         }
                     }
                     if ret_shapes.is_empty() {
